@@ -38,16 +38,16 @@ func c03Prefix(cs c03Case) []wop {
 func c03Directed(t, C, S int) c03Case {
 	return c03Case{Type: tn(t), C: C, P: S, Directed: true, Ops: []wop{
 		{K: "alloc", V: 0, A: S, B: S}, {K: "stamp", V: 0},
-		{K: "slice", V: 0, A: 0, B: S / 2},     // v1: first half of a
+		{K: "slice", V: 0, A: 0, B: S / 2}, // v1: first half of a
 		{K: "alloc", V: 2, A: 1, B: 1}, {K: "stamp", V: 2},
-		{K: "append", V: 0, W: 2},              // a grows; v1 stays on the old storage
+		{K: "append", V: 0, W: 2}, // a grows; v1 stays on the old storage
 		{K: "alloc", V: 3, A: S / 2, B: S / 2}, {K: "stamp", V: 3},
-		{K: "append", V: 3, W: 1},              // b grows to S frames
+		{K: "append", V: 3, W: 1}, // b grows to S frames
 		{K: "stamp", V: 3}, {K: "stamp", V: 1}, {K: "stamp", V: 0},
 		{K: "alloc", V: 4, A: S / 4, B: S / 4}, {K: "stamp", V: 4},
-		{K: "append", V: 4, W: 4},              // self-append, grows
+		{K: "append", V: 4, W: 4}, // self-append, grows
 		{K: "append", V: 4, W: 1}, {K: "stamp", V: 4}, {K: "stamp", V: 1},
-		{K: "alloc", V: 5, A: S, B: S + S/3},   // room for some, not all
+		{K: "alloc", V: 5, A: S, B: S + S/3}, // room for some, not all
 		{K: "append", V: 5, W: 1}, {K: "append", V: 5, W: 5}, {K: "stamp", V: 5}, {K: "stamp", V: 1},
 	}}
 }
